@@ -8,12 +8,14 @@ use evalexpr::Value;
 // ----------------------------------------------------------------------------- programs
 
 /// statements used to build programs with effects, calls and failures
-pub const STATEMENTS: [&str; 32] = [
+pub const STATEMENTS: [&str; 39] = [
     "a = 2", "a += 3", "b = a * 2", "a = \"s\"", "f(a)", "g(1)", "h(1)", "1/0", "zz", "true + 1", "f(1) + g(2)", "false && f(5)",
     "(a = 4, f(6))", "b", "a", "a *= 2.5", "c = (a, b)", "f(g(7))", "a -= f(1)", "9223372036854775807 + 1", "b = f(8); a = b", "g(f(zz))",
     "zz += 1", "a /= 0", "a += true", "a = a", "true", "42",
     // compound boolean assignments whose left value already decides the result: the right operand is still evaluated and type-checked
     "t ||= f(1)", "u &&= g(\"x\")", "t &&= u", "u ||= f(t)",
+    // compound assignments that do not change the value, and assignment operators that are reached but cannot be applied
+    "a += 0", "a *= 1", "u ||= false", "t &&= true", "a =", "1 = 2", "(a) += 2",
 ];
 
 fn program_setup() -> Vec<String> {
@@ -301,6 +303,13 @@ pub fn interesting_sources(rng: &mut Rng, n: usize) -> Vec<String> {
     .into_iter()
     .map(String::from)
     .collect();
+    // characters that editors and data formats put in front of a text: every entry point must read the same string
+    for prefix in ["\u{feff}", "\u{200b}", "\u{a0}", "\u{2060}", "\u{1}", "\u{feff} ", " \u{feff}"] {
+        for body in ["1 + 2", "", "a", "a * 2", "a = 3; a"] {
+            v.push(format!("{}{}", prefix, body));
+            v.push(format!("{}{}", body, prefix));
+        }
+    }
     for i in 0..n {
         v.push(if i % 2 == 0 { random_program(rng, 3) } else { pure_program(rng, 3) });
     }
@@ -313,7 +322,7 @@ impl Property for C12 {
     }
     fn rule(&self) -> String {
         "strings (well-formed or not; every value type and every error class occurs) x the 48 entry points (string/tree level x 8 result kinds x context-free / read-only / mutable): every typed result must be the reference projection \
-         of the untyped result of the same level and mode; tree level must equal string level; the context-free form must equal the mutable form on a fresh HashMapContext; repeating an evaluation from an equal state gives an equal result. \
+         of the untyped result of the same level and mode; tree level must equal string level; the context-free form must equal the mutable form on a fresh HashMapContext; repeating an evaluation from an equal state gives an equal result; plus the projections as the public Value API offers them (as_*, is_*, TryFrom, From, fixed / ranged length tuples, ValueType) on the value pool and random values against the statement's rule. \
          non-trivial = the untyped evaluation succeeds; distinct = distinct string"
             .into()
     }
@@ -389,6 +398,87 @@ impl Property for C12 {
         let u = eval_result(get(0, 0, 3));
         Verdict::Pass { nontrivial: if u.starts_with("ok") { Some(case.human.clone()) } else { None }, class: class_of(u) }
     }
+    fn extra(&self, tier: Tier, rng: &mut Rng) -> (usize, Vec<(String, String)>, Vec<String>) {
+        // the projections themselves, as the public `Value` API offers them (the typed entry points, user functions and
+        // `TryFrom` all go through these): payload if the value has that type, otherwise the matching expected-type error
+        // carrying the value; `as_number` additionally converts integers
+        use evalexpr::{DefaultNumericTypes, EvalexprError, TupleType, ValueType};
+        use std::convert::TryFrom;
+        type V = evalexpr::Value<DefaultNumericTypes>;
+        let mut pool = crate::gen::value_pool();
+        let n_rand = if tier == Tier::Quick { 2000 } else { 100_000 };
+        for _ in 0..n_rand {
+            pool.push(crate::gen::random_value(rng, 2));
+        }
+        let mut viol: Vec<(String, String)> = Vec::new();
+        let mut n = 0usize;
+        for v in &pool {
+            n += 1;
+            let tag = enc_value(v).chars().next().unwrap_or('?');
+            let mut bad = |what: &str, got: String, want: String| {
+                if got != want {
+                    viol.push((format!("{:?}", v), format!("{}: `{}`, expected `{}`", what, got, want)));
+                }
+            };
+            let exp = |ty: char, payload: String, err: EvalexprError| if tag == ty { format!("ok {}", payload) } else { format!("err {}", enc_err(&err)) };
+            let pv = enc_value(v);
+            bad("as_string", enc_res(&v.as_string(), |s| enc_value(&V::String(s.clone()))), exp('S', pv.clone(), EvalexprError::expected_string(v.clone())));
+            bad("as_int", enc_res(&v.as_int(), |i| enc_value(&V::Int(*i))), exp('I', pv.clone(), EvalexprError::expected_int(v.clone())));
+            bad("as_float", enc_res(&v.as_float(), |f| enc_value(&V::Float(*f))), exp('F', pv.clone(), EvalexprError::expected_float(v.clone())));
+            bad("as_boolean", enc_res(&v.as_boolean(), |b| enc_value(&V::Boolean(*b))), exp('B', pv.clone(), EvalexprError::expected_boolean(v.clone())));
+            bad("as_tuple", enc_res(&v.as_tuple(), |t| enc_value(&V::Tuple(t.clone()))), exp('T', pv.clone(), EvalexprError::expected_tuple(v.clone())));
+            bad("as_empty", enc_res(&v.as_empty(), |_| "E".to_string()), exp('E', pv.clone(), EvalexprError::expected_empty(v.clone())));
+            let num = match v {
+                V::Int(i) => format!("ok {}", enc_value(&V::Float(*i as f64))),
+                V::Float(_) => format!("ok {}", pv),
+                _ => format!("err {}", enc_err(&EvalexprError::expected_number(v.clone()))),
+            };
+            bad("as_number", enc_res(&v.as_number(), |f| enc_value(&V::Float(*f))), num);
+            bad("TryFrom for String", enc_res(&String::try_from(v.clone()), |s| enc_value(&V::String(s.clone()))), enc_res(&v.as_string(), |s| enc_value(&V::String(s.clone()))));
+            bad("TryFrom for bool", enc_res(&bool::try_from(v.clone()), |b| enc_value(&V::Boolean(*b))), enc_res(&v.as_boolean(), |b| enc_value(&V::Boolean(*b))));
+            bad("TryFrom for tuple", enc_res(&TupleType::<DefaultNumericTypes>::try_from(v.clone()), |t| enc_value(&V::Tuple(t.clone()))), enc_res(&v.as_tuple(), |t| enc_value(&V::Tuple(t.clone()))));
+            bad("TryFrom for ()", enc_res(&<()>::try_from(v.clone()), |_| "E".to_string()), enc_res(&v.as_empty(), |_| "E".to_string()));
+            let flags = format!("{}{}{}{}{}{}{}", v.is_string() as u8, v.is_int() as u8, v.is_float() as u8, v.is_number() as u8, v.is_boolean() as u8, v.is_tuple() as u8, v.is_empty() as u8);
+            let want_flags = match tag { 'S' => "1000000", 'I' => "0101000", 'F' => "0011000", 'B' => "0000100", 'T' => "0000010", _ => "0000001" };
+            bad("is_*", flags, want_flags.to_string());
+            let vt = format!("{:?}", ValueType::from(v));
+            bad("ValueType::from", vt, match tag { 'S' => "String", 'I' => "Int", 'F' => "Float", 'B' => "Boolean", 'T' => "Tuple", _ => "Empty" }.to_string());
+            // fixed / ranged length tuples
+            for len in 0..4usize {
+                let want = match v {
+                    V::Tuple(t) if t.len() == len => format!("ok {}", pv),
+                    V::Tuple(_) => format!("err {}", enc_err(&EvalexprError::expected_fixed_len_tuple(len, v.clone()))),
+                    _ => format!("err {}", enc_err(&EvalexprError::expected_tuple(v.clone()))),
+                };
+                bad("as_fixed_len_tuple", enc_res(&v.as_fixed_len_tuple(len), |t| enc_value(&V::Tuple(t.clone()))), want);
+                for hi in len..4usize {
+                    let want = match v {
+                        V::Tuple(t) if (len..=hi).contains(&t.len()) => format!("ok {}", pv),
+                        V::Tuple(_) => format!("err {}", enc_err(&EvalexprError::expected_ranged_len_tuple(len..=hi, v.clone()))),
+                        _ => format!("err {}", enc_err(&EvalexprError::expected_tuple(v.clone()))),
+                    };
+                    bad("as_ranged_len_tuple", enc_res(&v.as_ranged_len_tuple(len..=hi), |t| enc_value(&V::Tuple(t.clone()))), want);
+                }
+            }
+        }
+        // constructors
+        let mut ctor = |what: &str, got: V, want: V| {
+            n += 1;
+            if enc_value(&got) != enc_value(&want) {
+                viol.push((what.to_string(), format!("gives `{}`, expected `{}`", enc_value(&got), enc_value(&want))));
+            }
+        };
+        ctor("From<String>", V::from("ä b".to_string()), V::String("ä b".into()));
+        ctor("From<&str>", V::from(""), V::String("".into()));
+        ctor("From<bool> true", V::from(true), V::Boolean(true));
+        ctor("From<bool> false", V::from(false), V::Boolean(false));
+        ctor("From<()>", V::from(()), V::Empty);
+        ctor("From<Vec<Value>>", V::from(vec![V::Int(1), V::Empty]), V::Tuple(vec![V::Int(1), V::Empty]));
+        ctor("From<Vec<Value>> empty", V::from(Vec::<V>::new()), V::Tuple(vec![]));
+        ctor("from_int", V::from_int(i64::MIN), V::Int(i64::MIN));
+        ctor("from_float", V::from_float(-0.0), V::Float(-0.0));
+        (n, viol, vec!["value-api-projections".into()])
+    }
 }
 
 // ----------------------------------------------------------------------------- C14
@@ -400,14 +490,16 @@ impl Property for C14 {
         "C14"
     }
     fn rule(&self) -> String {
-        "expressions generated next to the spec (Spec/Ast, depth <= 6, rendered with random admissible gaps): the five immutable and five mutable identifier iterators of the real tree must equal the occurrence list Spec.occ of the generating AST \
-         (order and class); renaming all variables through the mutable iterator and in the context must not change the result; plus all token strings up to a length bound (iterators and renamed trees, real vs model). \
+        "expressions (Spec/Ast, depth <= 6) and sequence levels (Spec/Seq, with absent elements and empty groups) generated next to the spec and rendered with random admissible gaps and literal spellings: the five immutable and five mutable identifier iterators of the real tree must equal the occurrence list Spec.occ of the generating AST \
+         (order and class); renaming all variables through the mutable iterator and in the context must not change the result; evaluation in a context that binds nothing may only report an unknown identifier that the iterators list, in the right class; plus all token strings up to a length bound (iterators and renamed trees, real vs model). \
          non-trivial = at least two identifier occurrences; distinct = distinct source"
             .into()
     }
     fn cases(&self, tier: Tier, rng: &mut Rng) -> (Vec<Case>, bool) {
         let n = if tier == Tier::Quick { 6000 } else { 300_000 };
-        let reqs: Vec<String> = (0..n).map(|k| format!("gen.c14 {} {}", rng.next() % (1 << 60), 1 + k % 6)).collect();
+        let mut reqs: Vec<String> = (0..n).map(|k| format!("gen.c14 {} {}", rng.next() % (1 << 60), 1 + k % 6)).collect();
+        // the domain of C05 too: sequence levels with absent elements and empty groups (`a; ; b`, `(), f x`)
+        reqs.extend((0..n / 2).map(|k| format!("gen.c14l {} {}", rng.next() % (1 << 60), 1 + k % 3)));
         let answers = ask_driver(&reqs, 16).unwrap_or_default();
         let mut cases = Vec::new();
         for a in answers {
@@ -431,6 +523,9 @@ impl Property for C14 {
                 lines.push(format!("setf {} {} id", s, xarg("f")));
                 lines.push(format!("setf {} {} inc", s, xarg("g")));
             }
+            // in a context that binds nothing, evaluation can only report an unknown identifier the iterators list
+            lines.push("new 2 hm".to_string());
+            lines.push(format!("eval 2 mut t value {}", xarg(&src)));
             lines.push(format!("iter {}", xarg(&src)));
             lines.push(format!("rename variable {} {}", xarg("_r"), xarg(&src)));
             lines.push(format!("eval 0 mut t value {}", xarg(&src)));
@@ -499,6 +594,16 @@ impl Property for C14 {
                         "next() then for_each / skip(1).last() / next, next, fold over the identifier iterators gives `{}`, the source order is `{}`",
                         parts[5], want
                     ));
+                }
+            }
+            // an unknown-identifier error names an identifier of the right class that the iterators list
+            let unbound = eval_result(&out.impl_resp[n - 5]);
+            for (variant, class_ok) in [("err VariableIdentifierNotFound[", "rw"), ("err FunctionIdentifierNotFound[", "f")] {
+                if let Some(rest) = unbound.strip_prefix(variant) {
+                    let name = rest.trim_end_matches(']');
+                    if !occs.iter().any(|(c, n)| *n == name && class_ok.contains(c)) {
+                        return Verdict::SpecViolation(format!("evaluation in an empty context reports `{}`, but the iterators list only `{}`", unbound, occ));
+                    }
                 }
             }
             // renaming does not change the result
